@@ -246,7 +246,7 @@ pub fn run(ctx: &mut Ctx) {
         stun_vectors::SAMPLE_REQUEST_LONG_TERM_AUTH_SHA256.to_vec(),
     ];
 
-    let n = ctx.n(60_000, 1_500_000);
+    let n = ctx.n(60_000, 6_000_000);
     ctx.cases("generated", n, |ctx, case, rng| {
         let mut m = gen::message(rng, 8, &cfg);
         if m.key.is_some() {
@@ -278,7 +278,7 @@ pub fn run(ctx: &mut Ctx) {
     });
 
     // RFC vectors and their mutations
-    let n = ctx.n(10_000, 300_000);
+    let n = ctx.n(10_000, 1_000_000);
     ctx.cases("vectors", n, |ctx, case, rng| {
         let base = &donors[(case % donors.len() as u64) as usize];
         let vkey = HMACKey::new_short_term("VOkJxbRl1RmTxUk/WvJxBt").unwrap();
